@@ -7,6 +7,7 @@
 #include <map>
 #include <set>
 #include <functional>
+#include <deque>
 #include "json.h"
 #include "prng.h"
 #include "sim_core.h"
@@ -62,6 +63,8 @@ struct Engine {
 	std::vector<int64_t> live_after_stop;
 	uint64_t apis = 0;
 	std::vector<int> phase_tasks;
+	std::deque<J> drain_ops;
+	size_t loop_pos = 0;
 
 	explicit Engine(const J &p) : plan(p) {}
 	void run();                                         // sim::run_begin .. run_end
